@@ -320,6 +320,10 @@ fn process_request_obj(request: &Request, dbs: &Arc<Databases>, client: &mut Cli
                                     leave_previous_db(&db_name_state, &dbs_map, &dbs);
                                 }
                                 let _ = std::mem::replace(&mut *db_name_state, Some(name.clone()));
+                                // A session that selects with the database token is no user's
+                                // session any more: the user name of an earlier selection would
+                                // hold it to that user's permission list
+                                *client.selected_db.user_name.write().unwrap() = None;
                                 if !same_db {
                                     change_connection_counter(db, &dbs, true); //Increment the number of connections
                                 }
